@@ -68,6 +68,75 @@ def make_node(kind):
     return ctor
 
 
+class ClassRef:
+    """a class defined in one of the evaluated modules (the repo's ast_tools node classes): calling it builds an Inst"""
+
+    def __init__(self, ev, mod, node):
+        self.ev, self.mod, self.node = ev, mod, node
+
+    def mro(self):
+        out = [self]
+        for b in self.node.bases:
+            nm = ast.unparse(b).split(".")[-1]
+            c = self.ev.find_class(nm)
+            if c is not None:
+                out += c.mro()
+        return out
+
+    def fields(self):
+        """dataclass fields in declaration order: [(name, default node | None)]"""
+        out = []
+        for c in reversed(self.mro()):
+            for s in c.node.body:
+                if isinstance(s, ast.AnnAssign) and isinstance(s.target, ast.Name):
+                    out = [f for f in out if f[0] != s.target.id] + [(s.target.id, s.value, c.mod)]
+        return out
+
+    def method(self, name):
+        for c in self.mro():
+            for s in c.node.body:
+                if isinstance(s, ast.FunctionDef) and s.name == name:
+                    return c, s
+        return None
+
+    def __call__(self, *args, **kwargs):
+        flds = self.fields()
+        if len(args) > len(flds):
+            raise core.AnalysisError(f"{self.node.name}() got {len(args)} positional arguments for {len(flds)} fields")
+        vals = {}
+        for (nm, _, _), a in zip(flds, args):
+            vals[nm] = a
+        for k, v in kwargs.items():
+            if k not in [f[0] for f in flds] or k in vals:
+                raise core.AnalysisError(f"{self.node.name}() got an unexpected / repeated field {k}")
+            vals[k] = v
+        for nm, d, m in flds:
+            if nm not in vals:
+                if d is None:
+                    raise core.AnalysisError(f"{self.node.name}() missing field {nm}")
+                vals[nm] = self.ev.ev(d, {}, m)
+        inst = Inst(self.node.name, **vals)
+        inst.__dict__["_cls"] = self
+        return inst
+
+
+class Inst(Node):
+    """instance of a repo class; fields are plain attributes, methods are evaluated from the class's source"""
+
+    def __getattr__(self, name):
+        cls = self.__dict__.get("_cls")
+        if cls is None or name.startswith("__"):
+            raise AttributeError(name)
+        hook = cls.ev.method_hooks.get((cls.node.name, name))
+        if hook is not None:
+            return lambda *a, **k: hook(self, *a, **k)
+        m = cls.method(name)
+        if m is None:
+            raise AttributeError(name)
+        owner, fn = m
+        return Func(cls.ev, owner.mod, fn, self_obj=self)
+
+
 class _Return(Exception):
     def __init__(self, v):
         self.v = v
@@ -95,13 +164,33 @@ class MiniEval:
     def __init__(self, modules: Dict[str, ast.Module], aliases: Dict[str, str] = None, natives: Dict[str, Any] = None):
         self.modules = modules
         self.funcs = {m: {n.name: n for n in t.body if isinstance(n, ast.FunctionDef)} for m, t in modules.items()}
+        self.classes = {m: {n.name: n for n in t.body if isinstance(n, ast.ClassDef)} for m, t in modules.items()}
+        # module-level constants: NAME = <expression> (evaluated on first use)
+        self.assigns: Dict[str, Dict[str, ast.AST]] = {}
+        for m, t in modules.items():
+            d = {}
+            for n in t.body:
+                if isinstance(n, ast.Assign) and len(n.targets) == 1 and isinstance(n.targets[0], ast.Name):
+                    d[n.targets[0].id] = n.value
+                elif isinstance(n, ast.AnnAssign) and isinstance(n.target, ast.Name) and n.value is not None:
+                    d[n.target.id] = n.value
+            self.assigns[m] = d
+        self._modvals: Dict[Any, Any] = {}
+        self.method_hooks: Dict[Any, Any] = {}      # (class name, method name) -> python callable(inst, *args, **kwargs): modelled externals (jinja2)
         self.aliases = aliases or {}
         self.natives = dict(natives or {})
+        self.user_natives = dict(natives or {})
         for k in NODE_FIELDS:
             self.natives.setdefault(k, make_node(k))
         self.natives.setdefault("chain", type("chain", (), {"from_iterable": staticmethod(lambda it: list(itertools.chain.from_iterable(it)))}))
         self.depth = 0
         self.steps = 0
+
+    def find_class(self, name):
+        for m, cs in self.classes.items():
+            if name in cs:
+                return ClassRef(self, m, cs[name])
+        return None
 
     # -------- entry
     def call_named(self, mod, name, *args, **kwargs):
@@ -130,8 +219,15 @@ class MiniEval:
         for a, d in zip(fn.args.kwonlyargs, fn.args.kw_defaults):
             if d is not None:
                 env[a.arg] = self.ev(d, env, f.mod)
+        named = set(params) | {a.arg for a in fn.args.kwonlyargs}
+        extra = {}
         for k, v in kwargs.items():
-            env[k] = v
+            if k in named or fn.args.kwarg is None:
+                env[k] = v
+            else:
+                extra[k] = v
+        if fn.args.kwarg is not None:
+            env[fn.args.kwarg.arg] = extra
         missing = [p for p in params + [a.arg for a in fn.args.kwonlyargs] if p not in env]
         if missing:
             raise core.AnalysisError(f"{f.mod}.{fn.name}: missing argument(s) {missing}")
@@ -182,6 +278,11 @@ class MiniEval:
                 raise _Return(self.ev(s.value, env, mod) if s.value is not None else None)
             elif isinstance(s, ast.Pass):
                 pass
+            elif isinstance(s, ast.Try):
+                # handlers only re-raise with a better message in this code base: the body decides
+                self.block(s.body, env, mod, out)
+                self.block(s.orelse, env, mod, out)
+                self.block(s.finalbody, env, mod, out)
             elif isinstance(s, ast.Raise):
                 raise core.AnalysisError(f"construction code raises: {ast.unparse(s)[:100]}")
             else:
@@ -219,10 +320,22 @@ class MiniEval:
     def e_Name(self, n, env, mod):
         if n.id in env:
             return env[n.id]
+        if n.id in self.user_natives:
+            return self.user_natives[n.id]
         if n.id in self.funcs.get(mod, {}):
             return Func(self, mod, self.funcs[mod][n.id])
         if n.id in self.aliases:
             return ModuleProxy(self, self.aliases[n.id])
+        if n.id in self.classes.get(mod, {}):
+            return ClassRef(self, mod, self.classes[mod][n.id])
+        for m in self.modules:
+            if m != mod and m not in ("cpp",) and n.id in self.classes.get(m, {}):
+                return ClassRef(self, m, self.classes[m][n.id])           # `from formak.ast_tools import Arg, ...`
+        if n.id in self.assigns.get(mod, {}):
+            key = (mod, n.id)
+            if key not in self._modvals:
+                self._modvals[key] = self.ev(self.assigns[mod][n.id], {}, mod)
+            return self._modvals[key]
         if n.id in self.natives:
             return self.natives[n.id]
         if n.id in BUILTINS:
@@ -359,7 +472,12 @@ class MiniEval:
             hi = self.ev(n.slice.upper, env, mod) if n.slice.upper else None
             st = self.ev(n.slice.step, env, mod) if n.slice.step else None
             return b[lo:hi:st]
-        return b[self.ev(n.slice, env, mod)]
+        try:
+            return b[self.ev(n.slice, env, mod)]
+        except core.AnalysisError:
+            raise
+        except Exception as e:
+            raise core.AnalysisError(f"evaluating `{ast.unparse(n)[:80]}` failed: {type(e).__name__}: {e}")
 
     def _comp(self, n, env, mod, gens, acc, elt):
         if not gens:
